@@ -10,7 +10,7 @@ use std::str::FromStr;
 
 pub fn meta() -> Meta {
     Meta {
-        rule: "events = one string fed to every parsing entry point: Epoch::from_str, Epoch::from_gregorian_str, Epoch::from_format_str(s, fmt), Epoch::from_str_with_format(s, Format), Format::from_str, Format::parse, Duration::from_str, TimeScale/Weekday/MonthName::from_str (the string is used both as input and as format). Expected: outcome is a value or an Err; a panic of any kind (slice boundary, unwrap, todo!, unreachable!, assert, arithmetic overflow under overflow-checks), a step-budget overrun or a sanitizer report is a violation, signature = entry point + normalised panic site. Well-formed ISO text with exactly one field out of range (month 0/13, day 0/32, 30 February, 29 February of a non-leap year, hour 25, minute 60, second 61, UTC offset hours >= 24 or minutes >= 60, day of year 0 or beyond the year in %j formats, second 60 on any day / time of day without an inserted leap second) must be Err. Generation: grammar-derived valid texts (ISO/RFC3339 with 0-12 fractional digits, Z, offsets, scale suffix; JD/MJD/SEC numeric forms incl. exponents/inf/nan; duration texts and offsets; format strings of 1-18 tokens incl. %w %J %y and '?'; the formatter's own output for random (epoch, format) pairs; scale/weekday/month names) and 1-3 point mutations of them (delete, insert, substitute, truncate, duplicate, long digit runs, huge exponents, multi-byte and digit-like non-ASCII characters, control characters, prefix + white-space padding at either end, multi-byte look-alikes of signs / digits / separators in first position or in place of a sign), the complete single-edit lattice (every insert / replace / delete position x 33 characters, every white-space-padded prefix) of 26 seed texts covering each grammar, plus pairs (format string, unrelated input). Non-trivial = mutated or non-ASCII or out-of-range or (format,input) pair; distinct = distinct string hashes among those. Round 6: day-of-year lattice with the day in front of the year (%j %Y, %j/%Y %H:%M:%S, %H:%M:%S %j %Y, %J %Y); second 60 next to eight UTC offsets at eight times of day (open only where the wall clock or the denoted instant is a real leap second); every printable ASCII letter as a token after 0..20 known tokens with four tails; fields 256 + x and 65536 + x. Rounds 7-9: every out-of-range UTC offset also spelled +HHMM, +HHMMZ, ' +HH:MM', +HH:MM:00, +HH.MM, +HHhMM, with and without a fraction before it; formats of 13-18 tokens (the item table holds 16) x three token mixes x eight trailers read against the formatter's own output complete, cut short at each of the last twelve characters and with eighteen endings.",
+        rule: "events = one string fed to every parsing entry point: Epoch::from_str, Epoch::from_gregorian_str, Epoch::from_format_str(s, fmt), Epoch::from_str_with_format(s, Format), Format::from_str, Format::parse, Duration::from_str, TimeScale/Weekday/MonthName::from_str (the string is used both as input and as format). Expected: outcome is a value or an Err; a panic of any kind (slice boundary, unwrap, todo!, unreachable!, assert, arithmetic overflow under overflow-checks), a step-budget overrun or a sanitizer report is a violation, signature = entry point + normalised panic site. Well-formed ISO text with exactly one field out of range (month 0/13, day 0/32, 30 February, 29 February of a non-leap year, hour 25, minute 60, second 61, UTC offset hours >= 24 or minutes >= 60, day of year 0 or beyond the year in %j formats, second 60 on any day / time of day without an inserted leap second) must be Err. Generation: grammar-derived valid texts (ISO/RFC3339 with 0-12 fractional digits, Z, offsets, scale suffix; JD/MJD/SEC numeric forms incl. exponents/inf/nan; duration texts and offsets; format strings of 1-18 tokens incl. %w %J %y and '?'; the formatter's own output for random (epoch, format) pairs; scale/weekday/month names) and 1-3 point mutations of them (delete, insert, substitute, truncate, duplicate, long digit runs, huge exponents, multi-byte and digit-like non-ASCII characters, control characters, prefix + white-space padding at either end, multi-byte look-alikes of signs / digits / separators in first position or in place of a sign), the complete single-edit lattice (every insert / replace / delete position x 33 characters, every white-space-padded prefix) of 26 seed texts covering each grammar, plus pairs (format string, unrelated input). Non-trivial = mutated or non-ASCII or out-of-range or (format,input) pair; distinct = distinct string hashes among those. Round 6: day-of-year lattice with the day in front of the year (%j %Y, %j/%Y %H:%M:%S, %H:%M:%S %j %Y, %J %Y); second 60 next to eight UTC offsets at eight times of day (open only where the wall clock or the denoted instant is a real leap second); every printable ASCII letter as a token after 0..20 known tokens with four tails; fields 256 + x and 65536 + x. Rounds 7-9: every out-of-range UTC offset also spelled +HHMM, +HHMMZ, ' +HH:MM', +HH:MM:00, +HH.MM, +HHhMM, with and without a fraction before it; formats of 13-18 tokens (the item table holds 16) x three token mixes x eight trailers read against the formatter's own output complete, cut short at each of the last twelve characters and with eighteen endings. Round 10: out-of-range ordinal texts (YYYY-DDD) through the format-less parsers; 23:59:00 / :59 / :60 on 30 June and 31 December of every year 1..9999 in ISO and RFC 2822 form.",
         assumptions: &["the logical step budget (2000 ticks of the hooked loop) bounds 'terminates'; a generous wall-clock watchdog makes a hang inconclusive rather than silent"],
         mandatory: &["str/valid-iso", "str/mutated", "str/non-ascii", "str/out-of-range-field", "str/numeric-form", "str/duration", "str/format-string", "str/formatter-output", "str/name", "pair/format-input", "str/extreme-year", "str/single-edit", "str/padded-prefix", "outcome/ok", "outcome/err"],
         thorough_scale: 60,
